@@ -6,7 +6,7 @@ Require Import Verif.Lib.Wire Verif.Gen.Facts_C10 Verif.Model.C10 Verif.Proofs.C
 Lemma loads_cookie_at O o s : mac_len O -> codec_at O (key o) s ->
   loads O (key o) (cookie_of O o s) = Some (payload s).
 Proof.
-  intros Hm [Hb Hs]. unfold loads, cookie_of. rewrite Hb.
+  intros Hm [Hb Hs]. unfold loads, cookie_of. rewrite Hb. rewrite text_eqb_refl. cbn [negb]. rewrite andb_false_r.
   rewrite skipn_len_app, firstn_len_app by apply Hm. rewrite text_eqb_refl. exact Hs.
 Qed.
 
@@ -65,11 +65,14 @@ Proof.
 Qed.
 
 Lemma chain_refines_spec_on O o W : mac_len O -> codec_ok O (key o) W -> W [] ->
-  forall l last sv, chain_closed W l -> inv_on O o W last sv ->
+  forall l last sv, chain_ok O o l -> chain_closed W l -> inv_on O o W last sv ->
   Forall2 ok_at (run_chain O o last l) (spec_chain O o sv true l).
 Proof.
-  intros Hm Hk W0. induction l as [|r l IH]; intros last sv Hcl Iv; [constructor|].
-  inversion Hcl as [|? ? Hr Hl]; subst.
+  intros Hm Hk W0. induction l as [|r l IH0]; intros last sv Hok Hcl Iv; [constructor|].
+  inversion Hcl as [|? ? Hr Hl]; subst. inversion Hok as [|? ? Hor Hol]; subst.
+  assert (IH : forall last sv, chain_closed W l -> inv_on O o W last sv ->
+               Forall2 ok_at (run_chain O o last l) (spec_chain O o sv true l)) by (intros; apply IH0; assumption).
+  clear IH0.
   cbn [run_chain spec_chain negb].
   assert (Wsv : match sv with Some v => W (s_st v) | None => True end).
   { destruct last, sv; cbn [inv_on] in Iv; try contradiction; [apply Iv|exact Logic.I]. }
@@ -87,7 +90,7 @@ Proof.
     - rewrite R2. exact Iv.
     - destruct R2 as (v1 & -> & ->). split; [reflexivity|]. apply SW; auto.
     - rewrite R2. exact Iv. }
-  destruct (rsrc r) as [| |c] eqn:Sr.
+  destruct (rsrc r) as [| |c|c] eqn:Sr.
   - apply Fresh. cbn [present]. apply init_none.
   - cbn [present]. destruct last as [c|], sv as [v|]; cbn [inv_on] in Iv; try contradiction.
     + destruct Iv as [-> Wv].
@@ -108,4 +111,5 @@ Proof.
   - destruct (valid_signed O (key o) c) eqn:V.
     + constructor; [exact Logic.I|apply chain_dead].
     + apply Fresh. cbn [present]. apply init_unsigned, V.
+  - apply Fresh. cbn [present]. apply init_unsigned, Hor.
 Qed.
